@@ -227,7 +227,7 @@ def tstr(t, depth=0):
     if tag == "idx":
         return "%s[%s]" % (tstr(t[1], d), tstr(t[2], d))
     if tag == "mut":
-        return "%s'%s" % (tstr(t[1], d), t[2])
+        return "%s'%s" % (tstr(t[1], d), t[2][2] if isinstance(t[2], tuple) else t[2])
     if tag == "clos":
         return "closure#%s" % t[1]
     if tag == "cond":
@@ -567,8 +567,13 @@ class FnAnalysis:
             for p in pat["pats"]:
                 self.bind(st, p, val, src)
         elif k == "SlicePat":
+            v_ = val
+            while isinstance(v_, tuple) and v_ and v_[0] == "mut":
+                v_ = v_[1]
+            fixed = isinstance(v_, tuple) and v_ and v_[0] == "arr" and not pat.get("rest") and len(v_[1]) == len(pat["pats"])
             for i, p in enumerate(pat["pats"]):
-                self.bind(st, p, ("idx", val, C(i)), src)
+                # `[a, b, c]` against a visible array literal of the same length binds the elements themselves
+                self.bind(st, p, v_[1][i] if fixed else ("idx", val, C(i)), src)
 
     def alias_target(self, src):
         e = src
@@ -620,6 +625,11 @@ class FnAnalysis:
         return ("proj", val, key)
 
     def field(self, val, name):
+        # a value that differs from an older one only in named fields (`x.f = v`, mem::replace(&mut x.f, v)): other fields read through
+        while isinstance(val, tuple) and val and val[0] == "mut" and isinstance(val[2], tuple) and val[2] and val[2][0] == "fld":
+            if val[2][1] == name:
+                return val[2][3]
+            val = val[1]
         if isinstance(val, tuple) and val and val[0] == "struct":
             for n, t in val[2]:
                 if n == name:
@@ -845,9 +855,19 @@ class FnAnalysis:
                 rv = self.root_var(lhs)
                 if rv is not None and rv in s.env:
                     s.vers += 1
-                    s.env[rv] = ("mut", s.env[rv], s.vers)
+                    s.env[rv] = ("mut", s.env[rv], self._fld_tag(lhs, s.vers, v))
             outs.append((s, ("unit",)))
         return outs
+
+    def _fld_tag(self, place, vers, v):
+        """version tag of a store: a store to a direct field of a local (`x.f = v`, `(*x).f = v`) remembers which field and what value"""
+        if place["k"] == "Field":
+            b = place["e"]
+            while b is not None and b["k"] == "Un" and b.get("op") == "*":
+                b = b["e"]
+            if b is not None and b["k"] == "Local":
+                return ("fld", place["name"], vers, v)
+        return vers
 
     def e_AssignOp(self, e, st):
         outs = []
@@ -883,7 +903,19 @@ class FnAnalysis:
                 outs.append((s, ("unit",)))
                 continue
             base = vals[len(e["fields"])] if e["base"] is not None else None
-            t = ("struct", e.get("adt", "?"), tuple((f["name"], v) for f, v in zip(e["fields"], vals)), base)
+            flds = [(f["name"], v) for f, v in zip(e["fields"], vals)]
+            # `S { a, ..other }` where `other` is itself a visible struct literal of S (e.g. built by an inlined helper): take its remaining fields
+            b = base
+            while isinstance(b, tuple) and b and b[0] == "mut":
+                b = b[1]
+            while isinstance(b, tuple) and b and b[0] == "struct" and b[1] == e.get("adt", "?"):
+                have = set(n for n, _ in flds)
+                flds += [(n, v) for n, v in b[2] if n not in have]
+                base = b[3]
+                b = base
+                while isinstance(b, tuple) and b and b[0] == "mut":
+                    b = b[1]
+            t = ("struct", e.get("adt", "?"), tuple(flds), base)
             self.ev(s, "struct", e, adt=e.get("adt", "?"), value=t)
             outs.append((s, t))
         return outs
@@ -1237,7 +1269,7 @@ class FnAnalysis:
             lid = e.get("id")
 
             def pre(s0, itv=itv, lid=lid):
-                self.bind(s0, e["pat"], self.element_of(s0, itv, lid), e["iter"])
+                self.bind(s0, e["pat"], self.element_of(s0, itv, lid), None)     # an element is not an alias of the collection it comes from
             outs.extend(self.loop_common(e, s, pre, iter_term=itv))
         return outs
 
@@ -1373,7 +1405,7 @@ class FnAnalysis:
                 lid = fake["id"]
 
                 def pre(s0, itv=itv, lid=lid, fake=fake):
-                    self.bind(s0, fake["pat"], self.element_of(s0, itv, lid), fake["iter"])
+                    self.bind(s0, fake["pat"], self.element_of(s0, itv, lid), None)
                 for s2, _ in self.loop_common(fake, s, pre, iter_term=itv):
                     outs.append((s2, ("call", "core::result::Result::Ok", (("unit",),), None) if fn0.endswith("try_for_each") else ("unit",)))
             return outs
@@ -1384,6 +1416,25 @@ class FnAnalysis:
                 outs.append((s, ("unit",)))
                 continue
             fn = e.get("fn") or ("<method:%s>" % e["name"])
+            if fn == "core::iter::traits::collect::Extend::extend" and len(vals) == 2 and "hash::map::HashMap" in (e.get("resolved") or "") and "Extend<(K, V)>" in (e.get("resolved") or ""):
+                # `map.extend(iter)` is `for (k, v) in iter { map.insert(k, v); }`
+                lid = e.get("id")
+                itv = vals[1]
+                self.ev(s, "loop", e, what="enter", lid=lid, iter=itv)
+                s.loops = s.loops + (lid,)
+                elem = self.element_of(s, itv, lid)
+                k_, v_ = self.proj(elem, 0), self.proj(elem, 1)
+                self.ev(s, "call", e, fn="std::collections::hash::map::HashMap::<K, V, S, A>::insert", resolved=None, args=(vals[0], k_, v_), arg_nodes=[e["recv"], e["args"][0], e["args"][0]],
+                        recv=e["recv"], ret=("call", "std::collections::hash::map::HashMap::<K, V, S, A>::insert", (vals[0], k_, v_), self.fresh()), effects=(), tys=[e["recv"]["ty"], "", ""],
+                        targs=None, pos_before={}, pos_after={}, argkeys=[frozenset(), frozenset(), frozenset()], direct=None)
+                s.loops = s.loops[:-1]
+                self.ev(s, "loop", e, what="exit", lid=lid, how="end")
+                rv = self.root_var(e["recv"])
+                if rv is not None and rv in s.env and not _is_ref_ty(self.var_types.get(rv, "")):
+                    s.vers += 1
+                    s.env[rv] = ("mut", s.env[rv], s.vers)
+                outs.append((s, ("unit",)))
+                continue
             if fn == "core::bool::<impl bool>::then_some" and len(vals) == 2:
                 # `c.then_some(x)` is `if c { Some(x) } else { None }` (the argument is evaluated either way)
                 known = _const_truth(vals[0])
@@ -1492,6 +1543,17 @@ class FnAnalysis:
                     self.ev(st, "call", e, fn=fn, args=tuple(vals), arg_nodes=arg_nodes, recv=recv_node, ret=v2, effects=(), uid=None, tys=tys,
                             argkeys=[frozenset() for _ in arg_nodes], pos_before={}, pos_after={}, direct=None, targs=e.get("targs"), resolved=e.get("resolved"))
                     return v2
+        if fn in ("core::mem::replace", "core::mem::take") and arg_nodes and arg_nodes[0]["k"] == "Ref" and arg_nodes[0].get("mut"):
+            place = arg_nodes[0]["e"]
+            rv = self.root_var(place)
+            if rv is not None and rv in st.env and place["k"] == "Field":
+                old_v = vals[0]
+                new_v = vals[1] if len(vals) > 1 else ("call", "core::default::Default::default", (), self.fresh())
+                st.vers += 1
+                st.env[rv] = ("mut", st.env[rv], self._fld_tag(place, st.vers, new_v))
+                self.ev(st, "call", e, fn=fn, args=tuple(vals), arg_nodes=arg_nodes, recv=recv_node, ret=old_v, effects=(), uid=None, tys=tys,
+                        argkeys=[frozenset() for _ in arg_nodes], pos_before={}, pos_after={}, direct=None, targs=e.get("targs"), resolved=e.get("resolved"))
+                return old_v
         if fn.startswith("std::collections::hash::map::VacantEntry::") and fn.endswith("::insert") and len(vals) == 2:
             # inserting through a vacant entry hands back (a reference to) the value just stored
             self.ev(st, "call", e, fn=fn, args=tuple(vals), arg_nodes=arg_nodes, recv=recv_node, ret=vals[1], effects=(), uid=None, tys=tys,
